@@ -63,8 +63,19 @@ class Driver:
     def __init__(self) -> None:
         if not os.path.exists(DRIVER):
             raise SystemExit(f"{DRIVER} missing: run `make -C {VERIF} build`")
+        def _big_stack() -> None:
+            # the extracted functions recurse over row lists (not tail-recursively): long inputs
+            # of the thorough tier need more than the default 8 MB of native stack
+            import resource
+
+            try:
+                hard = resource.getrlimit(resource.RLIMIT_STACK)[1]
+                resource.setrlimit(resource.RLIMIT_STACK, (hard, hard))
+            except Exception:  # noqa: BLE001
+                pass
+
         self.p = subprocess.Popen(
-            [DRIVER], stdin=subprocess.PIPE, stdout=subprocess.PIPE
+            [DRIVER], stdin=subprocess.PIPE, stdout=subprocess.PIPE, preexec_fn=_big_stack
         )
         self.calls = 0
         # a spread sample of the commands answered, per family, for the extraction cross-check
